@@ -757,15 +757,29 @@ func ruleDataMatrixEncoder(c *Ctx) {
 		got := map[int64]string{}
 		for _, call := range callsTo(fn, setFn) {
 			a := call.Common().Args
-			bit, ok := n.Norm(a[4]).IsConst()
-			if !ok || n.Norm(a[3]).String() != "value" || n.Norm(a[0]).String() != "l" {
-				c.Check(R3, "datamatrix."+name+"/call", call.Pos(), false, "l.Set(r, c, value, <constant bit>)", call.String())
+			// a call inside a loop over a small offset table stands for one call per entry
+			insts, okI := n.loopInstances(call.Block())
+			if !okI {
+				c.Undecided(R3, "datamatrix."+name+"/loop", call.Pos(), "module write inside a loop whose iterations cannot be enumerated")
 				continue
 			}
-			if _, dup := got[bit]; dup {
-				c.Check(R3, fmt.Sprintf("datamatrix.%s/bit%d", name, bit), call.Pos(), false, "each bit placed once", "bit placed twice")
+			savedFold := n.FoldTables
+			n.FoldTables = true
+			for _, env := range insts {
+				n.env = append(n.env, env)
+				bit, ok := n.Norm(a[4]).IsConst()
+				if !ok || n.Norm(a[3]).String() != "value" || n.Norm(a[0]).String() != "l" {
+					c.Check(R3, "datamatrix."+name+"/call", call.Pos(), false, "l.Set(r, c, value, <constant bit>)", call.String())
+					n.env = n.env[:len(n.env)-1]
+					continue
+				}
+				if _, dup := got[bit]; dup {
+					c.Check(R3, fmt.Sprintf("datamatrix.%s/bit%d", name, bit), call.Pos(), false, "each bit placed once", "bit placed twice")
+				}
+				got[bit] = fmt.Sprintf("(%s, %s)", n.Norm(a[1]), n.Norm(a[2]))
+				n.env = n.env[:len(n.env)-1]
 			}
-			got[bit] = fmt.Sprintf("(%s, %s)", n.Norm(a[1]), n.Norm(a[2]))
+			n.FoldTables = savedFold
 		}
 		for bit, rc := range iso[name] {
 			want := fmt.Sprintf("(%s, %s)", MustRef(rc[0]), MustRef(rc[1]))
